@@ -83,6 +83,13 @@ type vNetT struct {
 	peers map[string]*vPeer
 	conns map[*grpc.ClientConn]*vPeer
 	open  map[*grpc.ClientConn]bool
+	// baseDialOpts: number of dial options the harness gave the manager; libraryDialOpts is
+	// set when a dial carries more than that - options the LIBRARY added (interceptors,
+	// per-RPC credentials, ...), which the puppet transport cannot execute: what they would
+	// add to a connection (e.g. metadata) is then not visible here, and assertions about it
+	// are not decidable (the path is dropped; the check reports INCONCLUSIVE, not a verdict).
+	baseDialOpts    int
+	libraryDialOpts bool
 }
 
 var vNet *vNetT
@@ -110,6 +117,9 @@ func (n *vNetT) addPeer(id uint32, up bool) *vPeer {
 func vstubDialContext(ctx context.Context, target string, opts ...grpc.DialOption) (*grpc.ClientConn, error) {
 	cc := new(grpc.ClientConn)
 	vAtomic(1, vNet)
+	if len(opts) != vNet.baseDialOpts {
+		vNet.libraryDialOpts = true
+	}
 	p := vNet.peers[target]
 	if p == nil {
 		vAtomicEnd()
@@ -334,6 +344,7 @@ func vFullStack(n int, up []bool, opts ...ManagerOption) *vWorld {
 	// (credentials are only needed by the real dial of native replays)
 	opts = append(opts, WithGrpcDialOptions(grpc.WithTransportCredentials(insecure.NewCredentials())))
 	w.mgr = NewRawManager(opts...)
+	w.net.baseDialOpts = len(w.mgr.opts.grpcDialOpts)
 	ids := make([]uint32, n)
 	first := vFullStackFirstID
 	if first == 0 {
